@@ -181,7 +181,10 @@ def _block(stmts, ind, lines, ctx):
 def _stmt(s, ind, lines, ctx):
     p = '    ' * ind
     k = s[0]
-    if k == 'S':
+    if k == 'SRC':
+        for ln in s[1]:
+            lines.append(p + ln)                       # raw source lines (targeted families)
+    elif k == 'S':
         if len(s) > 1:
             lines.append(p + s[1])                     # explicit text (targeted families)
         else:
@@ -258,6 +261,8 @@ def features(body):
     def go(ss):
         for s in ss:
             out.add(s[0])
+            if s[0] == 'SRC':
+                continue
             if s[0] == 'TRY':
                 go(s[1]); [go(h) for h in s[2]]; go(s[3]); go(s[4])
                 if s[2]:
@@ -406,6 +411,45 @@ def leaf_kind_family():
                      [('FOR', [('TRY', [P], [hole], [P], [])], [])], [('WHILE', [('TRY', [P], [], [], [P]), ('IF', hole, [])], [])]]
             for c in ctxs:
                 out.append(c + [P])
+    return out
+
+
+def local_class_family():
+    """Targeted exhaustive family (every run): a function with a LOCAL class — plain, with methods, with control flow in the
+    class body, with nested classes, with lambdas — at the top of the function / under `if` / in a loop / in a try body /
+    in a finally block / inside a nested def, FOLLOWED (directly, after a statement, or inside a later compound) by nested
+    defs (plain, with control flow, with an inner def), lambdas (assigned, as call arguments, returned), or another class;
+    so several GraphBuilders are live within ONE cfg.build call and every function / lambda graph of the returned dict can
+    be checked against its own function."""
+    P = ('S', 'x = a')
+    classes = [
+        ['class K:', '    z = 1'],
+        ['class K(B):', '    z = 1', '    def m(self):', '        return self'],
+        ['class K:', '    if a:', '        z = 1', '    else:', '        z = 2', '    for i in a:', '        w = i', '    try:', '        v = 1', '    finally:', '        u = 2'],
+        ['class K:', '    class J(B):', '        def n(self):', '            return lambda: self', '    def m(self, y):', '        while y:', '            y = g(y)', '        return J'],
+        ['class K:', '    key = lambda s: s', '    def m(self):', '        def inner(t):', '            return t', '        return inner'],
+    ]
+    followers = [
+        ['def h(y):', '    return y'],
+        ['x = lambda: a'],
+        ['def h(y):', '    if y:', '        return y', '    while y:', '        y = g(y)', '    return a'],
+        ['return lambda: a'],
+        ['x = g(lambda u: u, key=lambda: 1)', 'def h2(y):', '    x = y'],
+        ['def h(y):', '    def k(z):', '        return z', '    return k'],
+        ['class K2:', '    def m2(self):', '        return 2', 'def h(y):', '    return y'],
+    ]
+    out = []
+    for cl in classes:
+        C = ('SRC', cl)
+        for fo in followers:
+            F = ('SRC', fo)
+            out += [
+                [C, F], [C, P, F], [P, C, P, F, P],
+                [('IF', [C], [P]), F], [('IF', [C, F], [])], [C, ('IF', [P], [F])],
+                [('WHILE', [C, P], []), F], [C, ('FOR', [F], [])] if fo[0] != 'return lambda: a' else [C, ('FOR', [P], []), F],
+                [('TRY', [C], [[P]], [], [P]), F], [('TRY', [P], [], [], [C]), F], [C, ('TRY', [P], [[F]], [], [])],
+                [('DEFB', [C, P]), F], [C, C, F],
+            ]
     return out
 
 
